@@ -31,7 +31,7 @@ ASSUMPTIONS = [
     "a thread that blocks on a real lock held by a paused thread is detected by a 60 ms no-progress timeout; the paused threads are then released (the schedule is labelled, its outcome still judged)",
     "reference outcome = the same calls run sequentially on a fresh declaration of the same source",
 ]
-SHARDS = {"quick": 4, "thorough": 16}
+SHARDS = {"quick": 8, "thorough": 16}    # schedules that run into the real lock wait 60 ms each: sleep-bound, so more shards than cores are fine
 NO_SHRINK = True
 
 _WATCH = tuple(os.path.join(os.path.realpath(REPO), "utype", p) for p in ("parser" + os.sep, "utils" + os.sep + "base.py", "utils" + os.sep + "transform.py", "schema.py"))
@@ -339,6 +339,39 @@ def measure(wname, nthreads):
     return out
 
 
+def measure_funcs(wname, nthreads):
+    """per call (run alone, first): the function name of every traced line event, in order"""
+    out = []
+    for i in range(nthreads):
+        mod = fresh(wname)
+        try:
+            s = Scheduler([mod.CALLS[i]], [], 0)
+            names = []
+
+            def mk(_i, s=s, names=names):
+                def local(frame, event, arg):
+                    if event == "line":
+                        s.count[0] += 1
+                        names.append(frame.f_code.co_name)
+                    return local
+
+                def glob(frame, event, arg):
+                    if event == "call" and frame.f_code.co_filename.startswith(_WATCH):
+                        return local
+                    return None
+                return glob
+            s._trace = mk
+            s.run()
+            out.append(names)
+        finally:
+            discard(mod)
+    return out
+
+
+GATE_FUNCS = ("resolve_forward_refs",)                              # where first calls are serialised
+GUARDED_FUNCS = ("resolve_forward_refs", "_resolve_forward_refs")     # what the gate protects
+
+
 def campaign(ctx):
     def body(case):
         r = run_case(case)
@@ -369,10 +402,29 @@ def campaign(ctx):
                 body({"workload": w, "schedule": [[t, k]], "start": t, "threads": 2})
     ctx.extra["one_preemption_schedules"] = n
     ctx.extra["one_preemption_exhaustive"] = True
+    # 1b. two preemptions around the serialisation gate: thread t is stopped at one of its first line events inside the gate
+    #     (before / while taking the lock), the other thread is then stopped at any line of the guarded resolution, t runs on.
+    #     Enumerated completely: a check-then-act slip at the gate needs exactly such a pair.
+    n2 = 0
+    for w in (["W1"] if not ctx.thorough else ["W1", "W2", "W4"]):
+        names = measure_funcs(w, 2)
+        for t in (0, 1):
+            o = 1 - t
+            gate = [k for k, f in enumerate(names[t], 1) if f in GATE_FUNCS][: (12 if not ctx.thorough else 40)]
+            guarded = [k for k, f in enumerate(names[o], 1) if f in GUARDED_FUNCS]
+            for ka in gate:
+                for kb in guarded:
+                    idx += 1
+                    if idx % ctx.nshards != ctx.shard:
+                        continue
+                    ctx.ev()
+                    n2 += 1
+                    body({"workload": w, "schedule": [[t, ka], [o, kb]], "start": t, "threads": 2})
+    ctx.extra["gate_pair_schedules"] = n2
     # 2. sampled multi-preemption schedules over all workloads
     sched = st.fixed_dictionaries({
         "workload": st.sampled_from(["W1", "W2", "W3", "W4"]), "threads": st.sampled_from([2, 2, 3]),
     }).flatmap(lambda c: st.fixed_dictionaries({
         "workload": st.just(c["workload"]), "threads": st.just(c["threads"]), "start": st.integers(0, c["threads"] - 1),
-        "schedule": st.lists(st.tuples(st.integers(0, c["threads"] - 1), st.integers(1, 900)).map(list), min_size=1, max_size=3)}))
+        "schedule": st.lists(st.tuples(st.integers(0, c["threads"] - 1), st.integers(1, 3000)).map(list), min_size=1, max_size=3)}))
     ctx.run_given(sched, body, max_examples=ctx.n(150, 1500))
